@@ -518,7 +518,8 @@ def run(chk: Check) -> None:
         "trace (descent bounded to 3 levels). Queries: to_list maps each order name to the traversal of that name and "
         "raises ValueError otherwise; find_id returns the first id match and stops; find_type collects instances in "
         "in-order; get_children / is_leaf / get_sibling / get_root / get_root_side / get_side agree with the link "
-        "structure in every local configuration (ancestor chain <= 2). Not decided: nothing of the statement beyond "
+        "structure in every local configuration (ancestor chain <= 2). Repeated traversals: on every shape with up to four "
+        "nodes a full traversal after a stopped one makes the callbacks of a fresh tree. Not decided: nothing of the statement beyond "
         "the induction hypothesis itself (which is the statement for smaller trees).")
     chk.assumptions = ["links of the input tree are consistent", "induction hypothesis for recursive calls on proper subtrees"]
     run_traversals(chk, prog)
